@@ -297,6 +297,35 @@ def r_compile(ctx):
         r = b.reach(some_edge, avoid=[mvp])
         ctx.check(fep not in r, 'R13.a', tag + '/move-before-expand', b, b.loc(mv[0][0]), 'every layer goes through _move_to_next_layer (filters + squash) before it is expanded',
                   'a path expands a layer without _move_to_next_layer')
+        # the unrolling stops only when no variable is left or no node is left (not when a layer happens to have nothing to expand:
+        # with long arcs / filters an empty expansion list does not mean an empty diagram)
+        term_c = TERMINAL[tag]
+        def stop_ok(atoms, lit):
+            for a in atoms:
+                if opt_is(a, lambda x: M.is_call(x, 'Problem::next_variable'), 'None'):
+                    return True
+                if empty_lit(a, lambda x: self_field(x, term_c)):
+                    return True
+                if tag == 'Mdd' and a[0] == 'F' and M.is_call(a[1], '_move_to_next_layer'):
+                    return True
+            return False
+        ok, cut, bad = M.guarded(b, [finp], stop_ok)
+        ctx.check(ok, 'R07.5', tag + '/unroll-until-no-variable-or-no-node', b, b.loc(fin[0][0]),
+                  'the layer loop is left (towards _finalize) only when next_variable() is None or the next-layer container is empty',
+                  'the compilation can stop unrolling although a variable is left and nodes are still waiting (e.g. because the list of nodes to expand in this layer is empty): waiting nodes are taken for terminals')
+        if tag == 'Mdd':
+            mvb = ctx.body(adt, '_move_to_next_layer')
+            falses = [(bb_, i_) for (bb_, i_, s_) in mvb.assigns(lambda s_: s_['place']['l'] == 0 and not s_['place']['p'] and s_['rv']['k'] == 'use' and s_['rv']['op'].get('const', {}).get('bool') is False)]
+            okf = returns_value_only_if(mvb, False, lambda atoms: any(empty_lit(a, lambda x: M.is_param(x, index=2)) for a in atoms))
+            filt = call_points(mvb, '_filter_with_cache', '_filter_with_dominance', '_squash_if_needed')
+            for p_ in filt:
+                r_ = mvb.reach(mvb.after(p_))
+                if any(f_ in r_ for f_ in falses):
+                    okf = False
+            dr = [(bb_, t_) for (bb_, t_) in mvb.calls_to('drain') if self_field(mvb.origin.operand(t_['args'][0], mvb.term_point(bb_)), term_c)]
+            ctx.check(okf and bool(dr), 'R07.5', tag + '/move-false-iff-no-node', mvb, mvb.loc(0),
+                      '_move_to_next_layer answers false only when the drained next layer is empty, decided before any filter runs',
+                      '_move_to_next_layer can answer false (stop the compilation) for a layer that was emptied by the cache/dominance filters: its thresholds are never propagated')
         # R05.1 cutoff
         errs = [(bb, i) for (bb, i, s) in aggr_assigns(b, 'Result', 'Err') if s['place']['l'] == 0]
         stop_t = lambda atoms, lit: any(a[0] == 'T' and M.is_call(a[1], 'Cutoff::must_stop') for a in atoms)
@@ -497,6 +526,22 @@ def r_squash(ctx):
                 good = good and inner == ('sub', ('call', 'std::vec::Vec::<T, A>::len', (('field', ('param', ml.name, 0, 'self'), 'layers', d[3]),), None), ('const', 1, None, 'usize')) or \
                     (good and isinstance(inner, tuple) and inner[0] == 'sub' and M.is_call(inner[1], 'len') and self_field(inner[1][2][0], 'layers') and M.is_const(inner[2], 1))
             ctx.check(good, 'R08.2', tag + '/lel-is-previous-layer', ml, ml.loc(0), 'the last exact layer recorded is the previous layer (layers.len() - 1)', 'lel is not layers.len() - 1 at the first squash')
+
+
+def r_deleted_sites(ctx):
+    """only the squash (restrict / relax) may flag a node deleted: deleted nodes are skipped by the threshold computation"""
+    for tag, adt in DIAGRAMS:
+        n = 0
+        for body in dd_unit(ctx, tag):
+            for (bb, t) in body.calls_to('set_deleted'):
+                a = [body.origin.operand(x, body.term_point(bb)) for x in t['args']]
+                if M.is_const(a[1], False):
+                    continue
+                n += 1
+                root = ctx.F.bodies.get(body.root, body) if body.kind == 'closure' else body
+                ctx.check(root.fn_name in ('_restrict', '_relax'), 'R07.6', '%s/who-deletes/%s' % (tag, short(root)), body, body.loc(bb),
+                          'nodes are flagged deleted by the squash only', 'a node is flagged deleted in %s: deleted nodes are skipped when thresholds are computed and propagated' % root.fn_name)
+        ctx.floor('R07.6', tag + '/sites', None, n, 2, 'set_deleted(true) sites (_restrict, _relax)')
 
 
 def r_restrict(ctx):
@@ -938,6 +983,10 @@ def r_filters(ctx):
             ok, cut, bad = M.guarded(c, falses, lambda atoms, lit: any(M.cmp_matches(a, val, thv, '<=') for a in atoms))
             ctx.check(bool(falses) and ok, 'R09.4', tag + '/prune-polarity(E5)', c, c.loc(*falses[0]) if falses else c.loc(0), 'a node is pruned by the cache only on an edge asserting value_top <=|< threshold.value',
                       'the cache filter can prune a node without value_top <= theta being asserted (a strictly better path to the state is discarded)')
+            eff = sorted(set([d[2] for (pt, d, v, s) in writes(c) if isinstance(d, tuple) and d[0] == 'field'] +
+                             [(t_.get('callee') or '').split('::')[-1] for (b_, t_) in c.calls() if (t_.get('callee') or '').split('::')[-1].startswith('set_')]))
+            ctx.check(eff == ['set_pruned_by_cache', 'theta'], 'R09.4', tag + '/filter-only-records-flag-and-theta', c, c.loc(gt[0]), 'the cache filter changes nothing on a node except the cache flag and theta',
+                      'the cache filter has other effects on the node: %s' % eff)
             # pruned => flag + theta
             for p in falses:
                 r0 = c.reach([(0, 0)], avoid=[c.term_point(bb) for (bb, t) in c.calls_to('set_pruned_by_cache')])
@@ -974,6 +1023,10 @@ def r_filters(ctx):
             ok = returns_value_only_if(c, False, is_dom)
             ctx.check(ok, 'R10.6', tag + '/drop-only-dominated', c, c.loc(*falses[0]) if falses else c.loc(bb), 'a node is dropped (closure answers false) only when the checker answered dominated',
                       'the dominance filter can drop a node the checker did not report dominated')
+            eff = sorted(set([d[2] for (pt, d, v, s) in writes(c) if isinstance(d, tuple) and d[0] == 'field'] +
+                             [(t_.get('callee') or '').split('::')[-1] for (b_, t_) in c.calls() if (t_.get('callee') or '').split('::')[-1].startswith('set_')]))
+            ctx.check(eff == ['theta'], 'R10.6', tag + '/filter-only-records-theta', c, c.loc(bb), 'the dominance filter changes nothing on a node except theta',
+                      'the dominance filter has other effects on the node than recording theta: %s' % eff)
             tw = [(pt, d, v) for (pt, d, v, s) in writes(c) if node_field(d, 'theta') is not None]
             good = bool(tw) and all(node_field(d, 'theta') == idx and M.is_field(v, 'threshold', 'DominanceCheckResult') and v[1] == res for (pt, d, v) in tw)
             if good:
@@ -1602,6 +1655,24 @@ def r_pooled_layers(ctx):
         ctx.check(ok and depth_counter(tag, ia[1]), 'R15.3', 'no-empty-layer-recorded', mv, mv.loc(ins[0][0]),
                   'a layer is recorded (under the layer counter) only when it has nodes: layers.len() counts real layers, which the first-layer squash guard relies on',
                   'an empty layer can be recorded: the squash guard `layers.len() >= 2` then counts it and the children of the root can be merged (the root enters the cut-set)')
+    # the recorded layer is the unfiltered candidate list; filters and squash work on a separate copy that is returned for expansion
+    if ins:
+        rec = M.simplify_field(ia[2], 'nodes', None)
+        rec_locals = set(x[2] for x in M.walk(rec) if isinstance(x, tuple) and x and x[0] == 'var')
+        bad_ = []
+        for nm in ('_filter_with_cache', '_filter_with_dominance', '_squash_if_needed'):
+            for (b2, t2) in mv.calls_to(nm):
+                v_ = mv.origin.operand(t2['args'][2], mv.term_point(b2))
+                for leaf in M.leaves(v_):
+                    if leaf == rec or (isinstance(leaf, tuple) and leaf and leaf[0] == 'var' and leaf[2] in rec_locals):
+                        bad_.append(nm)
+                    if not (M.is_call(leaf, 'Clone::clone') or (isinstance(leaf, tuple) and leaf and leaf[0] == 'var')):
+                        bad_.append(nm + '?')
+        cl_ = [(b2, t2) for (b2, t2) in mv.calls_to('Clone::clone') if mv.origin.operand(t2['args'][0], mv.term_point(b2)) == rec or
+               any(isinstance(x, tuple) and x and x[0] == 'var' and x[2] in rec_locals for x in M.walk(mv.origin.operand(t2['args'][0], mv.term_point(b2))))]
+        ctx.check(not bad_ and bool(cl_), 'R15.5', 'layer-record-unfiltered', mv, mv.loc(ins[0][0]),
+                  'the layer recorded for the bottom-up passes keeps every candidate node; the cache / dominance filters and the squash work on a clone that is handed to the expansion',
+                  'the filters / squash operate on the recorded layer itself (%s): pruned or dominated nodes vanish from the layer record and their thresholds are never propagated' % sorted(set(bad_)))
     # the merged node created by the squash joins the recorded layer
     cp = ctx.body(adt, '_compile')
     mvc = cp.calls_to('_move_to_next_layer')
